@@ -51,6 +51,15 @@ func Run(sc *Script) []trace.Event {
 		Compression:     kafka.Compression(cfg.Compression),
 		Transport:       transport{r},
 	}
+	if cfg.Net == "real" {
+		rn := r.newRealTransport()
+		defer rn.close()
+		w.Transport = rn.tr
+		w.WriteTimeout = 150 * time.Millisecond
+		if cfg.WriteTimeoutMs > 0 {
+			w.WriteTimeout = time.Duration(cfg.WriteTimeoutMs) * time.Millisecond
+		}
+	}
 	w.Completion = func(ms []kafka.Message, err error) {
 		ids := msgIDs(ms)
 		if len(ms) > 0 {
